@@ -24,6 +24,7 @@ package main
 
 import (
 	_ "embed"
+	"go/token"
 	"go/types"
 	"os"
 	"path/filepath"
@@ -396,9 +397,25 @@ func helperParamDesc(x *ssa.Parameter, rec func(ssa.Value) string) (string, bool
 	return "phi(" + strings.Join(es, " | ") + ")", true
 }
 
+// descBind binds a new helper to the call site it is currently being
+// described for (a Walker frame, or the inlining of one call's result): its
+// parameters are then described by that call's arguments instead of the merge
+// over all call sites.
+var descBind = map[*ssa.Function]*ssa.Call{}
+
 // helperResultDesc describes result idx of a call to a new helper by the
 // values the helper returns.
-func helperResultDesc(h *ssa.Function, idx int, rec func(ssa.Value) string) (string, bool) {
+func helperResultDesc(call *ssa.Call, h *ssa.Function, idx int, rec func(ssa.Value) string) (string, bool) {
+	if prev, had := descBind[h]; !had || prev != call {
+		descBind[h] = call
+		defer func() {
+			if had {
+				descBind[h] = prev
+			} else {
+				delete(descBind, h)
+			}
+		}()
+	}
 	var es []string
 	dup := map[string]bool{}
 	for _, b := range h.Blocks {
@@ -501,4 +518,87 @@ func phiAlts(d string) []string {
 		}
 	}
 	return append(out, body[start:])
+}
+
+// freeVarAlias: a captured local that merely names a selection from another
+// captured variable or parameter (`pathConf := params.Conf`) is described as
+// that selection, so introducing or removing such a local does not change
+// descriptions inside the closure.
+func freeVarAlias(fv *ssa.FreeVar) (string, bool) {
+	fn := fv.Parent()
+	if fn == nil || fn.Parent() == nil {
+		return "", false
+	}
+	idx := -1
+	for i, v := range fn.FreeVars {
+		if v == fv {
+			idx = i
+		}
+	}
+	if idx < 0 {
+		return "", false
+	}
+	var mc *ssa.MakeClosure
+	n := 0
+	for _, b := range fn.Parent().Blocks {
+		for _, ins := range b.Instrs {
+			if m, ok := ins.(*ssa.MakeClosure); ok && m.Fn == ssa.Value(fn) {
+				mc = m
+				n++
+			}
+		}
+	}
+	if n != 1 || idx >= len(mc.Bindings) {
+		return "", false
+	}
+	a, ok := mc.Bindings[idx].(*ssa.Alloc)
+	if !ok {
+		return "", false
+	}
+	sv := singleStore(a)
+	if sv == nil {
+		return "", false
+	}
+	if _, isParam := sv.(*ssa.Parameter); isParam {
+		return "", false // the spill slot of a captured parameter: named as today
+	}
+	return aliasPath(sv, 0)
+}
+
+func aliasPath(v ssa.Value, depth int) (string, bool) {
+	if depth > 8 {
+		return "", false
+	}
+	switch x := v.(type) {
+	case *ssa.UnOp:
+		if x.Op == token.MUL {
+			return aliasPath(x.X, depth+1)
+		}
+	case *ssa.FieldAddr:
+		st := x.X.Type().Underlying().(*types.Pointer).Elem().Underlying().(*types.Struct)
+		s, ok := aliasPath(x.X, depth+1)
+		return s + "." + st.Field(x.Field).Name(), ok
+	case *ssa.Field:
+		st := x.X.Type().Underlying().(*types.Struct)
+		s, ok := aliasPath(x.X, depth+1)
+		return s + "." + st.Field(x.Field).Name(), ok
+	case *ssa.Parameter:
+		return x.Name(), true
+	case *ssa.FreeVar:
+		if a, ok := freeVarAlias(x); ok {
+			return a, true
+		}
+		return x.Name(), true
+	case *ssa.Alloc:
+		if sv := singleStore(x); sv != nil {
+			if p, ok := sv.(*ssa.Parameter); ok {
+				return p.Name(), true
+			}
+			return aliasPath(sv, depth+1)
+		}
+		if x.Comment != "" && x.Comment != "complit" && !strings.HasPrefix(x.Comment, "new") {
+			return x.Comment, true
+		}
+	}
+	return "", false
 }
